@@ -44,6 +44,7 @@ EDITS = (
     "sel-missing-column",
     "proj-missing-column",
     "join-pred-missing-column",
+    "join-pred-unsupported-expression",
     "chain-different-columns",
     "chain-different-engines",
     "join-different-engines",
@@ -213,7 +214,7 @@ def make_request(edit, rel, node, env, leaves, universe, opts, seed_expr, pick, 
             raise Skip()
         want = set(sorted_tags(cols)[:1]) | {some(missing)}
         return (lambda: rel.with_only_columns(want, **o)), (ColumnError,), f"proj {want}"
-    if edit in ("join-pred-missing-column", "join-different-engines", "join-different-engines-default-options", "chain-different-engines", "chain-different-columns"):
+    if edit in ("join-pred-missing-column", "join-pred-unsupported-expression", "join-different-engines", "join-different-engines-default-options", "chain-different-engines", "chain-different-columns"):
         # another relation of the program as the second operand
         others = [(n, rels[id(n)]) for n in walk(prog) if id(n) in rels and rels[id(n)] is not rel]
         used = leaf_indices(prog)
@@ -229,6 +230,22 @@ def make_request(edit, rel, node, env, leaves, universe, opts, seed_expr, pick, 
             p = ("eq", ("ref", absent(r2)[0]), ("lit", 1))
             jo = {k: v for k, v in o.items() if k in ("backtrack", "transfer")}
             return (lambda: rel.join(r2, lib_p(p), **jo)), (ColumnError,), f"join on {fmt_p(p)}"
+        if edit == "join-pred-unsupported-expression":
+            # both operands in one engine, all columns present: the predicate calls a function that this kind of engine
+            # does not support (restricted to the other kind, or to no engine at all), bare or below a connective
+            cands = [(n, r) for n, r in others if r.engine is rel.engine and not (leaf_indices(n) & leaf_indices(node))]
+            cands = [(n, r) for n, r in cands if all(t.is_key for t in set(r.columns) & cols)]
+            cands = [(n, r) for n, r in cands if (set(r.columns) | cols) and not r.is_join_identity and not rel.is_join_identity]
+            if not cands:
+                raise Skip()
+            n2, r2 = cands[pick % len(cands)]
+            allc = sorted_tags(set(r2.columns) | cols)
+            other_kind = ("it" if kind_here == "sql" else "sql") if pick % 4 else "none"
+            bad = ("ge", ("rneg", other_kind, ("ref", allc[(pick // 3) % len(allc)])), ("lit", 0))
+            fine = ("ge", ("ref", allc[0]), ("lit", -9))
+            p = (bad, ("and", (fine, bad)), ("or", (bad, fine)), ("not", bad))[(pick // 11) % 4]
+            jo = {k: v for k, v in o.items() if k in ("backtrack", "transfer")}
+            return (lambda: rel.join(r2, lib_p(p, raw_connectives=bool(pick % 2)), **jo)), (EngineError,), f"join on {fmt_p(p)} in {rel.engine}"
         if edit == "join-different-engines":
             cands = [(n, r) for n, r in others if r.engine is not rel.engine and not r.is_join_identity and not rel.is_join_identity]
             cands = [(n, r) for n, r in cands if all(t.is_key for t in set(r.columns) & cols)]
